@@ -389,6 +389,13 @@ func (e *Engine) growAlloc(st *State) {
 	r := Var("r?alloc", RefSort)
 	st.Assume(Forall([]*Term{r}, Implies(Select(old, r), Select(na, r))))
 	st.Alloc = na
+	// the ghost allocation counter (bytes requested by make) can only have grown
+	if g, ok := e.cs.Ghosts["allocBytes"]; ok && !g.IsFunc {
+		cur := st.ghostVal("allocBytes", types.Typ[types.Uint64]).(*Term)
+		nv := Fresh("G:allocBytes", BV64)
+		st.Assume(And(BVCmp("bvule", cur, nv), BVCmp("bvult", nv, BVU(1<<62, 64)))) // A-ALLOC: no wrap
+		st.Ghost["allocBytes"] = nv
+	}
 }
 
 var epochCounter int
@@ -498,6 +505,10 @@ func (e *Engine) checkFrame(p *Path, ms *ModSet, entry *State, exitKind string, 
 			continue
 		}
 		if ms.Ev && (name == "evLen" || strings.HasPrefix(name, "ev:")) {
+			continue
+		}
+		if name == "allocBytes" {
+			// part of `alloc`: whoever may allocate may advance the counter
 			continue
 		}
 		if name == "evPanic" {
